@@ -11,13 +11,14 @@ import datetime as _dt
 import inspect
 import math as _math
 import re as _re
+import types
 
 import z3
 
 from .sym import (Sym, Unsupported, SymLeak, is_sym, is_prim, lift, fresh, arith, cmp, to_int, to_real, B, And, Or,
                   Not, Ite, num, UF, PYTYPE)
 from . import sym as S
-from .interp import (RaiseEx, SymObject, lookup_special, is_repo_func, deep_has_sym, InterpFunction, ModelFn, Stub,
+from .interp import (RaiseEx, SymObject, lookup_special, is_repo_func, is_repo_obj, deep_has_sym, InterpFunction, ModelFn, Stub,
                      PathDead)
 
 NOT_HANDLED = object()
@@ -1018,6 +1019,63 @@ def m_copy(it, v):
     return it.native(_copy.copy, [v], {})
 
 
+def m_deepcopy(it, v, memo=None):
+    """copy.deepcopy: a structurally equal, fully fresh object graph (sharing inside the graph is preserved through the
+    memo); immutable leaves - numbers, strings, symbolic values, Excel value objects - are shared, as in CPython.
+    Repository objects are rebuilt field by field (no class in the repository defines __deepcopy__; a __reduce__ is
+    honoured by falling back to the native routine when nothing symbolic is inside)."""
+    if not deep_has_sym(v):
+        return it.native(_copy.deepcopy, [v], {})
+    memo = {} if memo is None else memo
+
+    def go(x):
+        if is_sym(x) or isinstance(x, SymObject) or is_prim(x) or x is None or isinstance(x, (type, types.FunctionType, ModelFn)):
+            return x
+        if id(x) in memo:
+            return memo[id(x)]
+        if not deep_has_sym(x):
+            r = _copy.deepcopy(x)
+            memo[id(x)] = r
+            return r
+        if isinstance(x, list):
+            r = []
+            memo[id(x)] = r
+            r.extend(go(e) for e in x)
+            return r
+        if isinstance(x, tuple):
+            return tuple(go(e) for e in x)
+        if isinstance(x, set):
+            r = set(go(e) for e in x)
+            memo[id(x)] = r
+            return r
+        if isinstance(x, dict):
+            r = {}
+            memo[id(x)] = r
+            for k, e in x.items():
+                r[go(k)] = go(e)
+            return r
+        if isinstance(x, Stub):
+            r = Stub(x._stub_name + "'")
+            memo[id(x)] = r
+            for k, e in x.__dict__.items():
+                if k != '_stub_name':
+                    object.__setattr__(r, k, go(e))
+            return r
+        if is_repo_obj(x):
+            if lookup_special(x, '__deepcopy__') is not None:
+                raise Unsupported('__deepcopy__ on ' + type(x).__name__)
+            from xlcalculator.xlfunctions import func_xltypes as _t
+            if isinstance(x, _t.ExcelType):
+                return x                               # immutable value object around a symbolic leaf
+            r = object.__new__(type(x))
+            memo[id(x)] = r
+            for k, e in x.__dict__.items():
+                object.__setattr__(r, k, go(e))
+            return r
+        raise Unsupported('deepcopy of ' + type(x).__name__ + ' holding symbolic data')
+    return go(v)
+
+
 def m_format(it, v, spec=''):
     if deep_has_sym(v):
         return fresh('str', 'fmt')
@@ -1154,7 +1212,7 @@ BUILTIN_MODELS = {
     sorted: m_sorted, divmod: m_divmod, ord: m_ord, enumerate: m_enumerate, zip: m_zip, reversed: m_reversed,
     range: m_range, filter: m_filter, map: m_map, any: m_any, all: m_all, bin: _digits(bin), oct: _digits(oct),
     hex: _digits(hex), pow: m_pow, format: m_format, iter: m_iter, next: m_next,
-    _copy.copy: m_copy,
+    _copy.copy: m_copy, _copy.deepcopy: m_deepcopy,
     _re.match: m_re('match'), _re.search: m_re('search'),
     _math.floor: m_math_unary('floor', exact=_floor), _math.ceil: m_math_unary('ceil', exact=_ceil),
     _math.trunc: None,   # replaced below (needs __trunc__ dispatch)
